@@ -240,6 +240,57 @@ theorem C11_other_accounts_not_counted (db : List Order) (o : Order) (acct : Acc
   rw [← hs db]
 
 
+/-! ## an accepted order set never over-commits the account -/
+
+/-- what is assumed of one order of the account together with the batches it is matched in: archived orders are not
+    matched at all; active ones are bids or guarded asks meeting the hypotheses of the two reserve theorems. -/
+def OrderPlanOk (ver : Nat) (x : Order) (bs : List BatchFills) : Prop :=
+  (archived x.state = true ∧ bs = []) ∨
+  (archived x.state = false ∧ 0 < x.minUnitsMatch ∧ premiumGuard x = true ∧ feePerKwFloor ≤ x.maxBatchFeeRate ∧
+    ((x.isBid = true ∧ Admissible x ver (· ≤ x.fixedRate) bs) ∨
+     (x.isBid = false ∧ askGuard x ∧ Admissible x ver (x.fixedRate ≤ ·) bs)))
+
+theorem order_plan_covered (fs : FeeSchedule) (ver : Nat) (x : Order) (bs : List BatchFills)
+    (h : OrderPlanOk ver x bs) :
+    totalDebit fs x bs ≤ reservedOf fs ver x + 2 * (totalFills bs : Int) := by
+  rcases h with ⟨ha, rfl⟩ | ⟨hna, hmin, hg, hfl, hb | ha⟩
+  · simp [reservedOf, C11_archived_zero fs x ver ha, totalDebit, totalFills]
+  · obtain ⟨R, hR, hle⟩ := C11_bid_reserve_covers fs x ver bs hb.1 hna hmin hg hfl hb.2
+    simpa [reservedOf, hR] using hle
+  · obtain ⟨R, hR, hle⟩ := C11_ask_reserve_covers fs x ver bs ha.1 hna hmin ha.2.1 hg hfl ha.2.2
+    simpa [reservedOf, hR] using hle
+
+/-- **Orders never over-commit an account.** If `validateOrder` accepted the new order `o`, then whatever admissible
+batches the new order and the account's stored orders are later matched in (`plan` pairs each of these orders with its
+batches), the verifier debits in total at most the account value plus two satoshis per match. -/
+theorem C11_accept_never_overcommits (db : List Order) (o : Order) (acct : Account) (t : Terms)
+    (hacc : validateOrder db o acct t = .ok)
+    (plan : List (Order × List BatchFills))
+    (hplan : plan.map (·.1) = o :: db.filter (fun x => x.acctKey = acct.key))
+    (hok : ∀ p ∈ plan, OrderPlanOk acct.version p.1 p.2) :
+    (plan.map (fun p => totalDebit ⟨t.baseFee, t.feeRate⟩ p.1 p.2)).sum
+      ≤ (acct.value : Int) + 2 * ((plan.map (fun p => totalFills p.2)).sum : Nat) := by
+  obtain ⟨_, _, r0, hr0, hcov, _⟩ := C11_accept_implies_covered db o acct t hacc
+  have hsum : ∀ l : List (Order × List BatchFills), (∀ p ∈ l, OrderPlanOk acct.version p.1 p.2) →
+      (l.map (fun p => totalDebit ⟨t.baseFee, t.feeRate⟩ p.1 p.2)).sum ≤
+        ((l.map (·.1)).map (reservedOf ⟨t.baseFee, t.feeRate⟩ acct.version)).sum
+          + 2 * ((l.map (fun p => totalFills p.2)).sum : Nat) := by
+    intro l hl
+    induction l with
+    | nil => simp
+    | cons p rest ih =>
+      have h1 := order_plan_covered ⟨t.baseFee, t.feeRate⟩ acct.version p.1 p.2 (hl p List.mem_cons_self)
+      have h2 := ih (fun q hq => hl q (List.mem_cons_of_mem _ hq))
+      simp only [List.map_cons, List.sum_cons]
+      push_cast at h2 ⊢
+      omega
+  have h := hsum plan hok
+  rw [hplan] at h
+  simp only [List.map_cons, List.sum_cons] at h
+  have : reservedOf ⟨t.baseFee, t.feeRate⟩ acct.version o = r0 := by simp [reservedOf, hr0]
+  rw [this] at h
+  omega
+
 /-! ## the statement without the guards, and why each guard is there -/
 
 /-- The reserve inequality for an order, as the English text reads when no admission guard is added. -/
@@ -331,6 +382,16 @@ example : (1 : Nat) ≤ 3 ∧ (5 : Nat) ≤ 253 ∧ estimateTraderFee 3 253 0 = 
 /-- `C11_archived_zero`: a canceled order with a zero minimum match -/
 example : archived (4 : Nat) = true ∧ orderReservedValue exFs { exBid with state := 4, minUnitsMatch := 0 } 0 = .ok 0 := by
   decide
+
+/-- `C11_accept_never_overcommits`: the accepted case below with a plan matching the new bid (two batches) and the
+    stored ask of the same account (two batches) meets `hplan` and `hok` -/
+example : ([(exBid, exBidBatches), (exAsk, exAskBatches)].map (·.1) =
+      exBid :: [exAsk, { exBid with acctKey := 1 }].filter (fun x => x.acctKey = (⟨0, 2000000, 0⟩ : Account).key)) ∧
+    OrderPlanOk 0 exBid exBidBatches ∧ OrderPlanOk 0 exAsk exAskBatches := by
+  refine ⟨by decide, Or.inr ⟨by decide, by decide, by decide, by decide, Or.inl ⟨rfl, ?_⟩⟩,
+    Or.inr ⟨by decide, by decide, by decide, by decide, Or.inr ⟨rfl, by decide, ?_⟩⟩⟩
+  · refine ⟨?_, ?_, ?_, ?_, ?_⟩ <;> simp [exBid, exBidBatches, totalUnits, fillsUnits] <;> decide
+  · refine ⟨?_, ?_, ?_, ?_, ?_⟩ <;> simp [exAsk, exAskBatches, totalUnits, fillsUnits] <;> decide
 
 /-- `C11_accept_implies_covered` / `C11_insufficient_only_if_uncovered`: an accepted and a rejected case with an order
     of the same account and one of another account in the store -/
